@@ -13,6 +13,7 @@ package tbls
 import (
 	"bytes"
 	"encoding/binary"
+	"errors"
 
 	"github.com/DOSNetwork/core/share"
 	"github.com/DOSNetwork/core/sign/bls"
@@ -90,6 +91,11 @@ func sliceUniqMap(s [][]byte) [][]byte {
 // shared public key X. The shared public key can be computed by evaluating the
 // public sharing polynomial at index 0.
 func Recover(suite suites.Suite, public *share.PubPoly, msg []byte, sigs [][]byte, t, n int) ([]byte, error) {
+	if t < public.Threshold() {
+		// fewer shares than the public polynomial has coefficients do not
+		// determine it: the interpolated value is not the group signature
+		return nil, errors.New("tbls: threshold smaller than the threshold of the public polynomial")
+	}
 	pubShares := make([]*share.PubShare, 0)
 	sigs = sliceUniqMap(sigs)
 	// one share per member: the same share may arrive under several byte
